@@ -713,5 +713,18 @@ theorem keepPositive_spec_of_nonneg (v : α) (hv : 0 ≤ v) : keepPositive v = f
 
 end positive
 
+/-! ### `np.hstack` of the per-object transformed mapping matrices -/
+theorem hstack_row {β : Type} (K : Nat) (Ms : List (List (List β))) (k : Nat) (hk : k < K) :
+    (hstack K Ms).getD k [] = Ms.flatMap fun M => M.getD k [] := by
+  simp [hstack, List.getD_eq_getElem?_getD, List.getElem?_range hk]
+
+theorem hstack_length {β : Type} (K : Nat) (Ms : List (List (List β))) : (hstack K Ms).length = K := by
+  simp [hstack]
+
+theorem cxAt_table {α : Type} [Zero α] (K C : Nat) (f : Nat → Nat → Cx α) (k c : Nat)
+    (hk : k < K) (hc : c < C) :
+    cxAt ((List.range K).map fun k => (List.range C).map fun c => f k c) k c = f k c := by
+  simp [cxAt, List.getD_eq_getElem?_getD, List.getElem?_range hk, List.getElem?_range hc]
+
 end DFTProofs
 end Model
